@@ -299,6 +299,13 @@ fresh1!(r_obj_generichash_key, "generichash::Key::gen", { dryoc::generichash::Ke
 fresh1!(r_vec_gen, "<Vec<u8> as NewByteArray<32>>::gen", { <Vec<u8> as NewByteArray<32>>::gen() });
 fresh1!(r_array_gen, "<[u8; 24] as NewByteArray<24>>::gen", { <[u8; 24] as NewByteArray<24>>::gen().to_vec() });
 fresh1!(r_randombytes_buf, "rng::randombytes_buf", { dryoc::rng::randombytes_buf(32) });
+// lengths well beyond any key size, not multiples of a power of two: every byte position must vary
+fresh1!(r_randombytes_buf_long, "rng::randombytes_buf(777)", { dryoc::rng::randombytes_buf(777) });
+fresh1!(r_copy_randombytes_long, "rng::copy_randombytes(1031 bytes)", {
+    let mut v = vec![0u8; 1031];
+    dryoc::rng::copy_randombytes(&mut v);
+    v
+});
 fresh1!(r_copy_randombytes, "rng::copy_randombytes", {
     let mut b = vec![0u8; 32];
     dryoc::rng::copy_randombytes(&mut b);
@@ -370,6 +377,8 @@ pub const C11: Registry = &[
     ("vec_gen", r_vec_gen),
     ("array_gen", r_array_gen),
     ("randombytes_buf", r_randombytes_buf),
+    ("randombytes_buf_long", r_randombytes_buf_long),
+    ("copy_randombytes_long", r_copy_randombytes_long),
     ("copy_randombytes", r_copy_randombytes),
     ("pwhash_salt", r_pwhash_salt),
     ("pwhash_str_salt", r_pwhash_str_salt),
